@@ -17,12 +17,12 @@ CHECKS = {
          "C02-style histories biased to overlapping write sets, several writes per key, deletes and autocommit writes between Begin and Commit; error class of every Commit/Rollback and an autocommit read-back of all keys after each are compared with the model (serialization error iff a written key has a newer committed version; never at RU/RC); a separate fault configuration makes the commit's Badger update fail before applying.",
          "as C01; Badger's own transaction atomicity is trusted.", "4/C03"),
  "C04": ("crashsim", "fault_enumeration", "crash-point enumeration: a child process runs a seeded workload under the simulator and SIGKILLs itself at the n-th persistent mutation, for every n; a fresh process recovers and is compared with the acknowledged-prefix model",
-         "For each sampled workload (3-10 autocommit/transactional operations) every persistent-mutation point (file create/write/close/remove, mkdir, Badger update; optionally a torn final write) is used as a kill point of a real child process; a verifier process reopens the directory twice and compares with the model of acknowledged operations plus an atomic subset of in-flight ones; second-level crashes during recovery are enumerated too.",
+         "For each sampled workload (3-10 autocommit/transactional operations) every persistent-mutation point (file create/write/close/remove, mkdir, Badger update; optionally a torn final write) is used as a kill point of a real child process; a verifier process reopens the directory twice and compares with the model of acknowledged operations plus an atomic subset of in-flight ones; second-level crashes during recovery are enumerated too. A quarter of the workloads have two concurrent clients (a crash-free screening of 24 seeded schedules keeps the one with most overlapping same-key writes; every key is read back at quiescence before a last write), judged by a linearizability check across the crash; one workload in sixteen is a single commit of 1001-2500 keys with the crash points of its tail.",
          "crash = process death (SIGKILL): everything handed to a completed system call survives; power loss is out of scope (fs_db never fsyncs content). Badger's recovery is trusted.", "4/C04"),
  "C05": ("dbsim+crashsim", "exploration", "deterministic simulation of histories with Close/Open at seeded positions and several databases per process; process-boundary segments run by fresh child processes",
-         "Histories as C01-C03 with Close/Open inserted, transactions left open across Close, up to 3 database directories opened in one process in any order (sharing the process-global sequence counter), and the same histories cut into segments executed by fresh processes; the reference model is carried across reopen and a final fresh-process open checks that later writes keep winning.",
+         "Histories as C01-C03 with Close/Open inserted, transactions left open across Close, up to 3 database directories opened in one process in any order (sharing the process-global sequence counter), the same histories cut into segments executed by fresh processes, and databases opened while a second client writes to another open one under a seeded concurrent schedule; the reference model is carried across reopen and a final fresh-process open checks that later writes keep winning.",
          "as C01.", "4/C05"),
- "C06": ("dbsim", "exploration", "deterministic simulation: seeded schedules (uniform, PCT) of 2-4 concurrent clients plus GC/cleaner actors; linearizability of the recorded call/return history checked with porcupine against the reference model; deadlock and panic detectors",
+ "C06": ("dbsim", "exploration", "deterministic simulation: seeded schedules (uniform with stickiness up to 0.99, PCT, one stalled client) of 2-4 concurrent clients plus GC/cleaner actors; linearizability of the recorded call/return history checked with porcupine against the reference model; deadlock and panic detectors",
          "2-4 clients issue autocommit operations and RU/RC transactions on 2-3 shared keys while the GC timer and cleaner jobs run; every decision point (lock acquire and release, atomic, channel, timer, IO) is a scheduler choice; the history (stamped with global event numbers) is checked for a linearization with porcupine, plus direct lost/resurrected/missing-key rules, deadlock and panic detection.",
          "interleavings at the granularity of synchronisation/atomic/IO operations; C15 checks data-race freedom separately. Badger, Go runtime trusted.", "4/C06"),
  "C07": ("dbsim", "exploration", "deterministic simulation of concurrently committing snapshot transactions under seeded schedules; history rule: overlapping snapshot writers of one key => at most one commit succeeds",
@@ -32,7 +32,7 @@ CHECKS = {
          "Snapshot readers Begin during the concurrent phase and read all keys twice while committers commit unique values to two or more keys, an autocommit writer writes and the GC timer fires; the oracle uses only call/return stamps, so it is sound for any correct implementation.",
          "as C06.", "4/C08"),
  "C09": ("dbsim", "exploration", "deterministic simulation: the collector is fired at every position of sequential multi-transaction histories; read-back of all actors before and after each firing and for the rest of the history against the reference model",
-         "C02 histories in which the collector runs (direct call and GC timer, several times in a row, right after Begin, with snapshot transactions of different ages open) followed by quiescence so that physical deletions have happened; all actors' reads immediately before and after must be identical and equal to the model, and the remaining history must still match.",
+         "C02 histories in which the collector runs (direct call and GC timer, several times in a row, right after Begin, with snapshot transactions of different ages open) followed by quiescence so that physical deletions have happened; all actors' reads immediately before and after must be identical and equal to the model, and the remaining history must still match. A quarter of the cases are concurrent: a collector actor overlapping snapshot readers and committers (C08's interval rules) or autocommit/RU/RC readers of a key under overwrite (C06's rules).",
          "as C01.", "4/C09"),
  "C10": ("dbsim+simgrpc", "fault_enumeration", "fault injection under deterministic simulation: ENOSPC positions (partial and all-or-nothing) on each subset of roots, failing/short source readers, context cancellation mid-upload, gRPC link cuts; oracle old-value-or-complete-new-value",
          "For sampled content lengths every fault position from the boundary set {0,1,chunk-1,chunk,chunk+1,L-1} plus seeded offsets is injected: simulated-disk ENOSPC on subsets of roots (honest and over-reporting disks), source reader errors and odd read shapes, cancellation at a source offset and link cuts through the in-process gRPC transport; an error must leave the previous value, nil must mean the complete value, and a root that really has room and reported more free space than the failing ones must be used.",
